@@ -17,7 +17,7 @@ RULE = (
     "alphabet = base footprint request x every parameter of the solver signature varied one at a time (srf_flx shape, srf_flx values, z, "
     "each of the five profiles, domain, levels (scalar, list, reordered), modes, meas_pt, srf_bg_conc, analytic, halo incl. None vs its "
     "resolved value, precision, footprint off); histories = all ordered pairs A->B->B->A on a fresh directory, random sequences of "
-    "length <= 12, the same sequences split over two processes sharing the directory, 2-4 processes using one directory (same keys) at the same time with a slow writer; faults = every truncation length of stored "
+    "length <= 12, the same sequences split over two processes sharing the directory, 2-4 processes using one directory (same keys) at the same time with a slow writer, 2-4 forked children using one inherited cache object (different keys) at the same time; faults = every truncation length of stored "
     "entries (thorough: every byte offset; quick: every 5th + all within 64 bytes of either end), random byte corruption, zero-length "
     "and garbage files, SIGKILL at every write/rename syscall of a storing process.  non-trivial = history with >= 2 distinct requests "
     "or a fault actually injected; distinct = distinct (history | fault point)"
@@ -48,6 +48,8 @@ def cases(tier, seed):
         out.append({"seed": seed, "kind": "kill", "j": j, "_cost": 30})
     for i in range(4 if tier == "quick" else 24):
         out.append({"seed": seed, "kind": "concurrent", "idx": i, "_cost": 12})
+    for i in range(4 if tier == "quick" else 24):
+        out.append({"seed": seed, "kind": "inherited", "idx": i, "_cost": 8})
     return out
 
 
@@ -218,7 +220,99 @@ def check_step(nm, res, ev, sweeps, ref, seen, viol, ctx, counters):
 
 def run_case(case):
     return {"pairs": pairs, "sequence": sequence, "truncate": truncate, "corrupt": corrupt, "kill": kill,
-            "concurrent": concurrent}[case["kind"]](case)
+            "concurrent": concurrent, "inherited": inherited}[case["kind"]](case)
+
+
+def _inherited_child(cache, names, seed, slow, start, q):
+    """Runs in a forked child: uses the cache OBJECT it inherited from the parent."""
+    import time
+
+    import numpy as np
+    from bldfm.solver import steady_state_transport_solver as S
+
+    out = {"solves": 0, "viol": []}
+    try:
+        ref = reference(set(names))
+        real = np.savez
+
+        def slow_savez(file, *a, **k):
+            if isinstance(file, (str, os.PathLike)):
+                t = str(file) if str(file).endswith(".npz") else str(file) + ".npz"
+                open(t, "wb").write(b"PK\x03\x04")
+            else:
+                try:
+                    file.flush()
+                except Exception:
+                    pass
+            time.sleep(slow)
+            return real(file, *a, **k)
+
+        if slow > 0:
+            np.savez = slow_savez
+        start.wait(60)
+        rng = np.random.default_rng(seed)
+        for step in range(30):
+            nm = names[int(rng.integers(len(names)))]
+            kw = build(nm)
+            args = [kw.pop(k) for k in ("srf_flx", "z", "profiles", "domain", "levels")]
+            try:
+                res = S(*args, cache=cache, **kw)
+            except BaseException as e:  # noqa
+                out["viol"].append({"what": "concurrent_use_is_fatal", "request": nm, "exc": type(e).__name__ + ": " + str(e)[:100], "step": step})
+                continue
+            out["solves"] += 1
+            if not same(res, ref[nm]):
+                out["viol"].append({"what": "cached_run_differs_from_uncached", "request": nm, "step": step, "cache_object": "inherited across fork"})
+    except BaseException as e:  # noqa
+        out["error"] = repr(e)[:300]
+    q.put(out)
+
+
+def inherited(case):
+    """One GreensFunctionCache object created in the parent and used by forked children that store different entries at the
+    same time (what a pool does when the cache is built before the fork), with a slow writer."""
+    import multiprocessing as mp
+    import shutil
+    import tempfile
+
+    from bldfm.cache import GreensFunctionCache
+    from vlib import gen
+
+    rng = gen.rng_for(case["seed"], "C15inh", case["idx"])
+    pool = [n for n in variant_names() if n not in ("dispersion",)]
+    nproc = int(rng.choice([2, 3, 4]))
+    slow = float(rng.choice([0.005, 0.02]))
+    d = os.path.abspath(tempfile.mkdtemp(dir=".", prefix="inh_"))
+    viol = []
+    counters = {"inherited_cache_processes": nproc, "inherited_cache_solves": 0}
+    try:
+        cache = GreensFunctionCache(os.path.join(d, "cache"))
+        ctx = mp.get_context("fork")
+        start, q = ctx.Event(), ctx.Queue()
+        # each child works on its own pair of requests: different keys written at the same moment through the same object
+        sets = [[str(x) for x in rng.choice(pool, size=2, replace=False)] for _ in range(nproc)]
+        procs = [ctx.Process(target=_inherited_child, args=(cache, sets[k], case["seed"] * 1000 + case["idx"] * 10 + k, slow, start, q)) for k in range(nproc)]
+        for p_ in procs:
+            p_.start()
+        start.set()
+        got = []
+        for _ in procs:
+            try:
+                got.append(q.get(timeout=900))
+            except Exception:
+                return {"harness_error": "child with inherited cache object did not report (watchdog)"}
+        for p_ in procs:
+            p_.join(30)
+        for r in got:
+            if r.get("error"):
+                return {"harness_error": "child with inherited cache object failed: " + r["error"]}
+            counters["inherited_cache_solves"] += r["solves"]
+            viol.extend(dict(v, processes=nproc, slow_writer=slow) for v in r["viol"])
+    finally:
+        shutil.rmtree(d, ignore_errors=True)
+    return {"evals": counters["inherited_cache_solves"], "nontrivial": True, "sig": f"inh|{case['idx']}|{nproc}|{slow}",
+            "buckets": {"history:cache_object_inherited_across_fork": 1}, "counters": counters, "violations": viol,
+            "sample": {"processes": nproc, "request_sets": sets, "slow_writer_s": slow}}
 
 
 HAMMER = (
